@@ -111,9 +111,8 @@ def pseudoAttrs : Nat → Str → Option Str
             else pseudoAttrs fuel (trimStart after2)
         else none
 
-/-- `xml_declaration(data)`. -/
-def xmlDeclaration (data : Bytes) : Option Str :=
-  let ascii := collectAscii (data.take 1024)
+/-- `xml_declaration` after the `for` loop: what the collected ASCII string says. -/
+def declFromAscii (ascii : Str) : Option Str :=
   match stripPrefix ['<', '?', 'x', 'm', 'l'] ascii with
   | none => none
   | some r1 =>
@@ -122,6 +121,10 @@ def xmlDeclaration (data : Bytes) : Option Str :=
     | some rest =>
       if !(rest.head?.any isAsciiWs) then none
       else pseudoAttrs (rest.length + 1) (trimStart rest)
+
+/-- `xml_declaration(data)`: only the first 1024 bytes are looked at. -/
+def xmlDeclaration (data : Bytes) : Option Str :=
+  declFromAscii (collectAscii (data.take 1024))
 
 /-! ### `xhtmlchardet::detect` on a head of at most five bytes (external crate, as written) -/
 
